@@ -190,6 +190,14 @@ TOKCFGS = [
         synonyms={'A': 'a', 'B': 'b'},
         skip_tokens=set(),
     ),
+    TokCfg(
+        "nine-letters",
+        r"(?P<SPACE>\s+)|" + "|".join("(?P<%s>%s)" % (ch.upper(), ch) for ch in "abcdefghi"),
+        list("abcdefghi"),
+        {ch: [ch] for ch in "abcdefghi"},
+        [" ", "\n", "  "],
+        synonyms={ch.upper(): ch for ch in "abcdefghi"},
+    ),
 ]
 
 
